@@ -1,0 +1,42 @@
+//go:build verif
+// +build verif
+
+package distributed
+
+// Contracts for the deductive verifier in /verif (comment-only file, build tag `verif`).
+
+// Interface contract used by the publish path (writer.go, publish.go): the matching subscriptions are a
+// function of the state and the topic bytes.
+//@ func (SubscriptionsState).ByPattern(s SubscriptionsState, pattern []byte) (r []api.Subscription)
+//@   ensures r == matching(s, string(pattern))
+//@   pure
+
+// Interface contracts used by the packet processor (packets.go). The implementations are verified against
+// stronger contracts below (C07-C10); here only what the callers rely on.
+//@ func (State).Topics(s State) (t TopicsState)
+//@   ensures t != nil
+//@   pure
+//@ func (State).Subscriptions(s State) (t SubscriptionsState)
+//@   ensures t != nil
+//@   pure
+//@ func (State).SessionMetadatas(s State) (t SessionMetadatasState)
+//@   ensures t != nil
+//@   pure
+//@ func (TopicsState).Set(t TopicsState, message *packet.Publish) (err error)
+//@   modifies #retainSets, #lastRetained
+//@   ensures #retainSets == old(#retainSets) + 1 && #lastRetained == message
+//@ func (TopicsState).Delete(t TopicsState, topic []byte) (err error)
+//@   modifies #retainDeletes
+//@   ensures #retainDeletes == old(#retainDeletes) + 1
+
+//@ func (SubscriptionsState).Create(s SubscriptionsState, sessionID string, pattern []byte, qos int32) (err error)
+//@   modifies #subCreates, #lastSubPattern, #lastSubSession
+//@   ensures #subCreates == old(#subCreates) + 1 && #lastSubPattern == pattern && #lastSubSession == sessionID
+//@ func (SubscriptionsState).Delete(s SubscriptionsState, sessionID string, pattern []byte) (err error)
+//@   modifies #subDeletes, #lastSubPattern, #lastSubSession
+//@   ensures #subDeletes == old(#subDeletes) + 1 && #lastSubPattern == pattern && #lastSubSession == sessionID
+//@ func (TopicsState).Get(t TopicsState, pattern []byte) (r []api.RetainedMessage, err error)
+//@   modifies #topicGets
+//@   ensures #topicGets == old(#topicGets) + 1
+//@ func (SessionMetadatasState).ByClientID(s SessionMetadatasState, clientID string) (md api.SessionMetadatas, err error)
+//@   modifies nothing
